@@ -42,43 +42,67 @@ Proof. vm_compute. repeat split. discriminate. Qed.
 
 (* ---- width > 0 (TextWrappingSerializer, Ws/Wrap.v) ----------------------------------------------------------
 
-   The full statement
-
-     Theorem C03_wrapped : forall req T sr t ind align w, get T sr = Some t -> reduced t -> ws_indent ind = true ->
-       (0 < w)%Z -> reduce_model (seen (wrap_chunk ind align w req sr (after_path T sr) t)) = t.
-
-   (for every fitting oracle `req`, the real `_required_space` being the instance `real_req T sr`).  It was false of
-   the code before b3af6c0 (finding C03-preserved-newline-offset, fixed); the former witnesses are the regression
-   Example below.  PARTIAL - what is proved of it (every width >= 1, every indentation of spaces and tabs, both
-   align settings, serialization from the root or from any sub-tree of any document T - the output of a sub-tree
-   serialization depends on what follows the sub-tree in T, the theorems hold for every T; the precondition is
-   that the serialized sub-tree on its own is reduced):
-     * C03_wrapped_first_text (every oracle that lets nothing but a text fit into no space) and its instance for
-       the real _required_space, C03_wrapped_real_first_text: the full statement for all trees of the decidable
-       class `first_text` - below an element that is not under xml:space="preserve", a text with content may only
-       stand FIRST among its siblings (every later text child is a single space; elements, comments, PIs anywhere;
-       anything under xml:space="preserve").  This contains all trees without mixed content (C03_wrapped_no_mixed,
-       for EVERY oracle) and patterns like <li>text <ref/> <note>...</note></li>.
-     * C03_wrapped_if_partial_line: the full statement for ALL trees, given the one remaining lemma, the Prop
-       `over_spec` (Ws/WrapFull.v): _serialize_text_over_lines entered from a partly filled line (writer offset
-       <> 0: the "filling" of the rest of the line, then further lines) satisfies the text-step postcondition
-       `tstep_post` (what is written collapses to the text with a leading/trailing space exactly where one is legal
-       and needed, or leaves the line full).  Everything else of the text step is proved (Ws/WrapTextStep.v:
-       texts that fit the line, _serialize_text_over_lines from the start of a line incl. _consolidate_text_lines
-       and the oracle-dependent extra empty line), as is the node level (Ws/WrapVariant.v, Ws/WrapFull.v: all
-       branches of serialize_node incl. the re-entry after a newline, _serialize_appendable_node, the verbatim
-       serializers, the writer invariant).
-     * The hypothesis on the oracle is necessary: when a line break consumes the trailing space of a text the line
-       is full, and an oracle that lets the next element fit into no space would glue it to the text.
-   Indentation strings containing a newline are not covered for width > 0 (the writer strips them at the start of
-   a line). *)
+   C03_wrapped (below) is the full statement: for EVERY tree, mixed content included, every width >= 1, every
+   indentation of spaces and tabs, both align settings, serialization from the root or from any sub-tree of any
+   document T (the output of a sub-tree serialization with a line width depends on what follows the sub-tree in
+   T - `fetch_following` leaves the sub-tree - and the theorem holds for every T; the precondition is that the
+   serialized sub-tree on its own is reduced), and for every fitting oracle `req` in place of _required_space that
+   lets nothing but a text fit into no space.  C03_wrapped_real is the instance for the real _required_space
+   (`real_req`, which has that property: real_req_nofit0).
+   The hypothesis on the oracle is necessary (C03_wrapped_oracle_hypothesis_needed): when a line break consumes
+   the trailing space of a text the line is full, and an oracle that lets the next element fit into no space glues
+   it to the text.  Not covered for width > 0: indentation strings that contain a newline (the writer strips them
+   at the start of a line; ./check C03 covers them by testing only).
+   It was false of the code before b3af6c0 (finding C03-preserved-newline-offset, fixed); the former witnesses are
+   the regression Example below.
+   Proof (Ws/WrapVariant.v, Ws/WrapTextStep.v, Ws/WrapFull.v): the writer invariant `winv` (offset 0 only after a
+   newline the serializer wrote itself, whitespace written only where legal); one lemma per emission pattern of
+   serialize_node (w_node_spec_ow: fits / re-entry after a newline / does not fit, _serialize_appendable_node,
+   the verbatim serializers without stripping); the text step `tstep_post` for _serialize_text in all branches
+   (fits the line exactly / fits / _serialize_text_over_lines from the start of a line and from a partly filled
+   line incl. the given-up filling, _consolidate_text_lines, the oracle-dependent extra empty line), stated at the
+   level of `collapse` via a calculus for collapse over concatenations and the lines of the generated _wrap_text
+   as segments of the unescaped text (relation `wl`); then the mutual induction over the normal form
+   (wrap_full_mut) and part (A). *)
 
 Example C03_wrapped_regression :
   reduce_model (wrap_seen [SP; SP] false 5%Z c03_witness []) = c03_witness /\
   reduce_model (wrap_seen [SP; SP] false 5%Z c03_witness_comment []) = c03_witness_comment.
 Proof. split; [exact (proj1 (proj2 (proj2 c03_witness_regression)))|exact (proj2 (proj2 (proj2 (proj2 (proj2 c03_witness_regression)))))]. Qed.
 
-(* trees in which a text with content only stands first among its siblings: every admissible oracle ... *)
+(* THE STATEMENT: all trees, every admissible oracle, root or sub-tree *)
+Theorem C03_wrapped : forall ind align width req T, ws_indent ind = true -> no_lf ind = true -> (1 <= width)%Z ->
+  (forall rp u x, get T rp = Some x -> is_text x = false -> (u <= 0)%Z -> req rp u = None) ->
+  forall t sr, get T sr = Some t -> reduced t -> is_text t = false ->
+  reduce_model (seen (wrap_chunk ind align width req sr (after_path T sr) t)) = t.
+Proof. exact wrap_all_transparent. Qed.
+Print Assumptions C03_wrapped.
+
+(* with the real heuristics: NodeBase.serialize(format_options=FormatOptions(align, ind, width)) of the element at sr of T,
+   re-read (merging adjacent character data) and reduced, is the element *)
+Theorem C03_wrapped_real : forall ind align width T sr t, ws_indent ind = true -> no_lf ind = true -> (1 <= width)%Z ->
+  get T sr = Some t -> reduced t -> is_text t = false ->
+  reduce_model (wrap_seen ind align width T sr) = t.
+Proof. exact wrap_real_transparent. Qed.
+Print Assumptions C03_wrapped_real.
+
+(* the hypothesis on the oracle cannot be dropped: with an oracle that lets everything fit, <r>aa bbb <i/>c</r> at width 3
+   loses the space before <i/> (the real heuristics put a newline there) *)
+Example C03_wrapped_oracle_hypothesis_needed :
+  let t := Tag [] [114%N] [] [Text [97; 97; 32; 98; 98; 98; 32]%N; Tag [] [105%N] [] []; Text [99%N]] in
+  reduce_model t = t /\
+  reduce_model (seen (wrap_chunk [] false 3%Z (fun _ _ => Some 0%Z) [] None t)) <> t /\
+  reduce_model (seen (wrap_chunk [] false 3%Z (real_req t []) [] None t)) = t.
+Proof. vm_compute. repeat split. discriminate. Qed.
+
+Example C03_wrapped_mixed_example :
+  let t := Tag [] [112%N] [] [Text [97; 97; 32; 98; 98; 32]%N; Tag [] [105%N] [] [Text [99; 99]%N]; Text [32; 100; 100; 32; 101; 101; 101; 32; 102]%N;
+                              Comment [99%N]; Text [103; 103]%N] in
+  reduce_model t = t /\ first_text t = false /\ wrap_str [SP; SP] false 6%Z t [] <> render (plain t) /\
+  reduce_model (wrap_seen [SP; SP] false 6%Z t []) = t.
+Proof. vm_compute. repeat split. discriminate. Qed.
+
+(* intermediate results, kept: trees in which a text with content only stands first among its siblings ... *)
 Theorem C03_wrapped_first_text : forall ind align width req T, ws_indent ind = true -> no_lf ind = true -> (1 <= width)%Z ->
   (forall rp u x, get T rp = Some x -> is_text x = false -> (u <= 0)%Z -> req rp u = None) ->
   forall t sr, get T sr = Some t -> reduced t -> is_text t = false -> first_text t = true ->
@@ -93,7 +117,7 @@ Theorem C03_wrapped_real_first_text : forall ind align width T sr t, ws_indent i
 Proof. exact wrap_real_first_text_transparent. Qed.
 Print Assumptions C03_wrapped_real_first_text.
 
-(* all trees, given the partial-line branch of _serialize_text_over_lines *)
+(* all trees, given the partial-line branch of _serialize_text_over_lines (now proved: over_spec_holds) *)
 Theorem C03_wrapped_if_partial_line : forall ind align width req T, ws_indent ind = true -> no_lf ind = true -> (1 <= width)%Z ->
   (forall rp u x, get T rp = Some x -> is_text x = false -> (u <= 0)%Z -> req rp u = None) ->
   over_spec ind width req ->
